@@ -23,6 +23,18 @@ IMPL = {
     "notes.remove_redundant_accidentals": notes.remove_redundant_accidentals,
 }
 
+def _by_keyword(f):
+    """the same function, every argument passed by its parameter name (a guard that only looks at positional arguments,
+    e.g. in a decorator, is skipped by such a call)"""
+    import inspect
+    params = list(inspect.signature(f).parameters)
+    def call(*a):
+        return f(**dict(zip(params, a)))
+    return call
+
+for _k in list(IMPL):
+    IMPL["kw:" + _k] = _by_keyword(IMPL[_k])
+
 def has_model(c):
     return True
 
@@ -86,6 +98,18 @@ def cases(tier, rng):
         yield Case("notes.note_to_int", [s], "pc/malformed")
         yield Case("notes.reduce_accidentals", [s], "reduce/malformed")
         yield Case("notes.is_valid_note", [s], "valid/malformed")
+    # the same calls with the arguments passed by name (judged by the oracle; the model has no notion of call style)
+    kw_names = list(names(3)) + [x for k, x in enumerate(malformed(2, rng, 40)) if k % 3 == 0][:200]
+    for s in kw_names:
+        for f in ("notes.note_to_int", "notes.is_valid_note", "notes.reduce_accidentals"):
+            yield Case("kw:" + f, [s], "kw/" + f.split(".")[1], model=False)
+        if is_name(s):
+            for f in ("notes.augment", "notes.diminish", "notes.remove_redundant_accidentals"):
+                yield Case("kw:" + f, [s], "kw/" + f.split(".")[1], model=False)
+            yield Case("kw:notes.is_enharmonic", [s, "Db"], "kw/enh", model=False)
+    for i in (-1, 0, 5, 11, 12):
+        for st in ("#", "b", "x"):
+            yield Case("kw:notes.int_to_note", [i, st], "kw/i2n", model=False)
     ints = list(range(-50, 51)) + [rng.randint(-2**63, 2**63) for _ in range(50)]
     for i in ints:
         for st in ["#", "b", "", "x", "##", "bb", "B"]:
@@ -93,6 +117,8 @@ def cases(tier, rng):
 
 def oracle(c, obs):
     fn, a = c["fn"], c["args"]
+    if fn.startswith("kw:"):
+        fn = fn[3:]
     if fn == "notes.note_to_int":
         s = a[0]
         if is_name(s):
